@@ -31,6 +31,7 @@ def run(ctx):
     ctx.rule("R2.single-door", "sched_setaffinity <- bindings setter <- platform pin <- ProcessorSet::pin_current_thread_to only", floor=3)
     ctx.rule("R3.bookkeeping-every-path", "exactly one update_pin_status after the platform pin on every path, form decided by set size / region uniformity", floor=4)
     ctx.rule("R4.per-thread-per-hardware", "PIN_STATES thread_local keyed by hardware_id; spawn_threads pins inside the spawned closure before the entry point; one spawn per processor", floor=5)
+    ctx.rule("R6.kernel-error-not-swallowed", "a failing sched_setaffinity is never tolerated: the binding turns every non-zero return into Err, and the platform pin diverges on every Err (otherwise the bookkeeping would record a pin the kernel refused)", floor=2)
     ctx.rule("R5.fresh-mask", "the mask passed to the kernel is a CpuMask::new() local of that call, filled by insert() over the given processors", floor=2)
 
     # ---------------- R1
@@ -264,6 +265,45 @@ def run(ctx):
                 if [1 for bb, t in c.calls() if t["callee"].get("method") == "sched_setaffinity_current"]:
                     det += f"; the kernel call sits in closure {short(c.key)} (mask state carried outside this call)"
         ctx.ob("R5.fresh-mask", "linux.pin_current_thread_to", ok, b.loc(), det)
+    # ---------------- R6
+    from ..analysis import err_outcomes_diverge, switch_guards as _sg
+    if pp:
+        b = pp[0]
+        for bb, t in [(bb, t) for bb, t in b.calls() if t["callee"].get("method") == "sched_setaffinity_current"]:
+            ok, det = err_outcomes_diverge(b, bb)
+            ctx.ob("R6.kernel-error-not-swallowed", "linux.pin_current_thread_to", ok, b.loc(t["span"]), det)
+    rb = [x for x in prog.bodies if x.key.endswith("real::BuildTargetBindings as many_cpus_impl::pal::linux::bindings::abstractions::Bindings>::sched_setaffinity_current")]
+    if not rb:
+        ctx.missing("R6.kernel-error-not-swallowed", "BuildTargetBindings::sched_setaffinity_current")
+    else:
+        b = rb[0]
+        ctx.fn(b)
+        ffi = [(bb, t) for bb, t in b.calls() if callee_key(t["callee"]).endswith("sched_setaffinity")]
+        ok = len(ffi) == 1
+        det = f"FFI call sites {len(ffi)}"
+        if ok:
+            dest = ffi[0][1]["dest"]["l"]
+            oks = []
+            for blk in b.blocks:
+                for st in blk.stmts:
+                    if st["k"] == "assign" and st["place"]["l"] == 0 and st["rv"]["k"] == "aggr" and st["rv"].get("variant") in ("Ok", "Err"):
+                        oks.append((blk.idx, st["rv"]["variant"]))
+            good = bool(oks)
+            for obb, var in oks:
+                gs = [g for g in _sg(b, obb) if g["src"].get("kind") == "cmp" and g["src"].get("lhs_local") is not None and
+                      dest in Slice(b, through_calls=False).run({"k": "copy", "place": {"l": g["src"]["lhs_local"], "p": []}})["locals"]]
+                if not gs:
+                    good = False
+                    continue
+                g = gs[0]
+                eq0 = g["src"]["op"] == "Eq" and g["src"]["const"] == 0
+                ne0 = g["src"]["op"] == "Ne" and g["src"]["const"] == 0
+                truth = 0 not in g["allowed"]
+                is_zero_arm = (eq0 and truth) or (ne0 and not truth)
+                good = good and ((var == "Ok") == is_zero_arm) and (eq0 or ne0)
+            ok = good and {v for _b, v in oks} == {"Ok", "Err"}
+            det += f"; Ok exactly when the kernel returned 0, Err otherwise: {ok}"
+        ctx.ob("R6.kernel-error-not-swallowed", "bindings.result-from-return-code", ok, b.loc(), det)
     cn = prog.one("cpu_mask::CpuMask::with_words")
     if cn is not None:
         ctx.fn(cn)
